@@ -919,4 +919,152 @@ theorem complete_certificate (c : Codes) (ht : c.tCertificate = 11) (m : Certifi
     (fun x _ => by simp [certItem, be24]) m.certs (concatMap certItem m.certs).length hok (concat_ge_length _)
   rw [hm]
 
+/-! ### certificate request (hand-indexed, both stacks) -/
+
+def CasOk (cas : List Bytes) : Prop := ∀ x ∈ cas, x.length < 65536
+
+theorem caItem_length (x : Bytes) : (caItem x).length = 2 + x.length := by
+  simp [caItem, be16]; omega
+
+theorem cas_ge_length (cas : List Bytes) : cas.length ≤ (concatMap caItem cas).length := by
+  induction cas with
+  | nil => simp [concatMap]
+  | cons x xs ih => simp only [concatMap, List.length_append, caItem_length, List.length_cons]; omega
+
+theorem casLoop_enc (cas : List Bytes) (hc : CasOk cas) :
+    ∀ fuel, cas.length < fuel → casLoop fuel (concatMap caItem cas) = .ok cas := by
+  induction cas with
+  | nil => intro fuel hf; cases fuel with
+    | zero => omega
+    | succ f => simp [concatMap, casLoop]
+  | cons x xs ih =>
+    intro fuel hf
+    cases fuel with
+    | zero => omega
+    | succ f =>
+      have hx := hc x List.mem_cons_self
+      have hxs : CasOk xs := fun y hy => hc y (List.mem_cons_of_mem _ hy)
+      have h0 : ¬ ((concatMap caItem (x :: xs)).length = 0) := by
+        simp only [concatMap, List.length_append, caItem_length]; omega
+      have h2 : ¬ ((concatMap caItem (x :: xs)).length < 2) := by
+        simp only [concatMap, List.length_append, caItem_length]; omega
+      have hidx : idx16 (concatMap caItem (x :: xs)) 0 = .ok x.length := by
+        simp only [concatMap, caItem, List.append_assoc]; exact idx16_be16 hx _
+      have hs1 : sliceFrom (concatMap caItem (x :: xs)) 2 = .ok (x ++ concatMap caItem xs) := by
+        rw [sliceFrom_eq (by omega)]; simp [concatMap, caItem, be16]
+      have hlt : ¬ ((x ++ concatMap caItem xs).length < x.length) := by simp
+      have hs2 : slice (x ++ concatMap caItem xs) 0 x.length = .ok x := by
+        rw [slice_eq (by omega) (by simp)]; simp
+      have hs3 : sliceFrom (x ++ concatMap caItem xs) x.length = .ok (concatMap caItem xs) := by
+        rw [sliceFrom_eq (by simp)]; simp
+      simp only [casLoop, h0, ↓reduceIte, h2, hidx, bind_ok, hs1, hlt, hs2, hs3,
+        ih hxs f (by simp at hf; omega), pure_eq]
+
+theorem casLoop_ne_panic : ∀ (f : Nat) (cas : Bytes), casLoop f cas ≠ .panic := by
+  intro f
+  induction f with
+  | zero => intro cas; simp [casLoop]
+  | succ f ih =>
+    intro cas
+    unfold casLoop
+    split
+    · simp
+    · split
+      · simp
+      · rename_i h0 h2
+        rw [idx16_eq (by omega), sliceFrom_eq (by omega)]
+        simp only [bind_ok]
+        split
+        · simp
+        · rename_i hlen
+          rw [slice_eq (by omega) (by omega), sliceFrom_eq (by omega)]
+          simp only [bind_ok]
+          cases hr : casLoop f _ with
+          | panic => exact absurd hr (ih _)
+          | reject => simp
+          | ok l => simp
+
+/-- decoding `t :: be24 |body| ++ ext ++ body` where the header is `4 + |ext|` bytes long -/
+theorem rt_certificateRequestAt (t : UInt8) (ext : Bytes) (m : CertificateRequest)
+    (ht : 0 < m.types.length ∧ m.types.length < 256) (hc : CasOk m.cas)
+    (hcl : (concatMap caItem m.cas).length < 65536) :
+    decCertificateRequestAt (4 + ext.length)
+      ((t :: (be24 (encCertificateRequestBody m).length ++ ext)) ++ encCertificateRequestBody m) = .ok m := by
+  have hbl : (encCertificateRequestBody m).length = 1 + m.types.length + 2 + (concatMap caItem m.cas).length := by
+    simp [encCertificateRequestBody, be16]; omega
+  have hbl2 : (encCertificateRequestBody m).length < 16777216 := by omega
+  have hhl : (t :: (be24 (encCertificateRequestBody m).length ++ ext)).length = 4 + ext.length := by
+    simp [be24]; omega
+  unfold decCertificateRequestAt
+  have h1 : ¬ (((t :: (be24 (encCertificateRequestBody m).length ++ ext)) ++ encCertificateRequestBody m).length < 4 + ext.length + 1) := by
+    rw [List.length_append, hhl]; omega
+  have h2 : idx24 ((t :: (be24 (encCertificateRequestBody m).length ++ ext)) ++ encCertificateRequestBody m) 1 =
+      .ok (encCertificateRequestBody m).length := by
+    simp only [be24, List.cons_append, List.nil_append, idx24, idx, List.getElem?_cons_succ, List.getElem?_cons_zero,
+      nat24_be24 hbl2]
+  have h3 : ¬ (((t :: (be24 (encCertificateRequestBody m).length ++ ext)) ++ encCertificateRequestBody m).length - (4 + ext.length) ≠
+      (encCertificateRequestBody m).length) := by
+    rw [List.length_append, hhl]; omega
+  have h4 : idx ((t :: (be24 (encCertificateRequestBody m).length ++ ext)) ++ encCertificateRequestBody m) (4 + ext.length) =
+      .ok (u8 m.types.length) := by
+    have := idx_append_right (t :: (be24 (encCertificateRequestBody m).length ++ ext)) (encCertificateRequestBody m) 0
+    rw [hhl, Nat.add_zero] at this
+    rw [this]; simp [encCertificateRequestBody, idx]
+  have h5 : sliceFrom ((t :: (be24 (encCertificateRequestBody m).length ++ ext)) ++ encCertificateRequestBody m) (4 + ext.length + 1) =
+      .ok (m.types ++ (be16 (concatMap caItem m.cas).length ++ concatMap caItem m.cas)) := by
+    have := sliceFrom_append_right (t :: (be24 (encCertificateRequestBody m).length ++ ext)) (encCertificateRequestBody m) 1 (by omega)
+    rw [hhl] at this
+    rw [this]; simp [encCertificateRequestBody]
+  have hn : (u8 m.types.length).toNat = m.types.length := u8_toNat_of_lt ht.2
+  simp only [h1, ↓reduceIte, h2, bind_ok, h3, h4, h5, hn]
+  have h6 : ¬ (m.types.length = 0 ∨
+      (m.types ++ (be16 (concatMap caItem m.cas).length ++ concatMap caItem m.cas)).length ≤ m.types.length) := by
+    simp [be16]; omega
+  have h7 : (m.types ++ (be16 (concatMap caItem m.cas).length ++ concatMap caItem m.cas)).take m.types.length = m.types := by
+    simp
+  have h8 : sliceFrom (m.types ++ (be16 (concatMap caItem m.cas).length ++ concatMap caItem m.cas)) m.types.length =
+      .ok (be16 (concatMap caItem m.cas).length ++ concatMap caItem m.cas) := by
+    rw [sliceFrom_eq (by simp)]; simp
+  simp only [h6, ↓reduceIte, h7, ne_eq, not_true_eq_false, h8, bind_ok]
+  have h9 : ¬ ((be16 (concatMap caItem m.cas).length ++ concatMap caItem m.cas).length < 2) := by simp [be16]
+  have h10 : sliceFrom (be16 (concatMap caItem m.cas).length ++ concatMap caItem m.cas) 2 = .ok (concatMap caItem m.cas) := by
+    rw [sliceFrom_eq (by simp [be16])]; simp [be16]
+  have h11 : sliceFrom (concatMap caItem m.cas) (concatMap caItem m.cas).length = .ok [] := by
+    rw [sliceFrom_eq (Nat.le_refl _)]; simp
+  simp only [h9, ↓reduceIte, idx16_be16 hcl, bind_ok, h10, Nat.lt_irrefl, List.take_length, h11,
+    casLoop_enc m.cas hc _ (by have := cas_ge_length m.cas; omega), List.length_nil]
+
+theorem total_certificateRequestAt (hl : Nat) (h3 : 3 ≤ hl) (data : Bytes) : decCertificateRequestAt hl data ≠ .panic := by
+  unfold decCertificateRequestAt
+  split
+  · simp
+  · rename_i h1
+    rw [idx24_eq (by omega)]
+    simp only [bind_ok]
+    split
+    · simp
+    · rw [idx_eq (by omega), sliceFrom_eq (by omega)]
+      simp only [bind_ok]
+      split
+      · simp
+      · rename_i hn
+        split
+        · simp
+        · rw [sliceFrom_eq (by simp only [List.length_drop] at hn ⊢; omega)]
+          simp only [bind_ok]
+          split
+          · simp
+          · rename_i h2
+            rw [idx16_eq (by omega), sliceFrom_eq (by omega)]
+            simp only [bind_ok]
+            split
+            · simp
+            · rename_i hcl
+              rw [sliceFrom_eq (by omega)]
+              simp only [bind_ok]
+              cases hr : casLoop _ _ with
+              | panic => exact absurd hr (casLoop_ne_panic _ _)
+              | reject => simp
+              | ok l => simp only [bind_ok]; split <;> simp
+
 end Gotlcp.Lemmas.Codec
